@@ -122,7 +122,7 @@ def _edge_throws(fn, succ):
 def _edge_returns_empty(fb, fn, succ):
     if succ is None:
         return False
-    empties = [n['id'] for n in _returns(fn) if U.value_source(fb, fn, n['sub'])[0] == 'empty']
+    empties = [n['id'] for n in _returns(fn) if all(src[0] == 'empty' for (src, _x) in _ret_sources(fb, fn, n))]
     return bool(empties) and U.must_pass(fn, succ, empties) is None and not U.throw_ids(fn)
 
 
@@ -162,11 +162,39 @@ def _probe_ok(fb, fn, d, so):
     return idp['d'] in seen
 
 
-def _stored_value_checks(fb, R, rule, fn, ret, src, mode):
+def _ret_sources(fb, fn, ret):
+    """value sources of one return statement: [(source, extra guards)].  `return c ? a : b;` yields one entry per arm; the arm is
+    guarded by c (with the arm's sense) and the "other edge" of that guard is the other arm: ('arm', expr id)."""
+    x = U.strip_casts(fn, ret['sub'])
+    n = fn.nodes.get(x)
+    hops = 0
+    while n is not None and n.get('k') == 'var' and n.get('vk') == 'local' and n['d'] not in U.assigned_vars(fn) and hops < 3:
+        hops += 1
+        init = U.local_init(fn, n['d'])
+        if init is None:
+            break
+        x = U.strip_casts(fn, init)
+        n = fn.nodes.get(x)
+    if n is not None and n.get('k') == 'condop':
+        out = []
+        for arm, other, sense in ((n['then'], n['else'], True), (n['else'], n['then'], False)):
+            facts = []
+            U._expand(fn, n['cond'], sense, facts)
+            extra = [(c, s_, None, ('arm', other)) for (c, s_) in facts]
+            out.append((U.value_source(fb, fn, arm), extra))
+        return out
+    return [(U.value_source(fb, fn, ret['sub']), [])]
+
+
+def _stored_value_checks(fb, R, rule, fn, ret, src, mode, extra=()):
     """mode 'throw' (get) / 'empty' (get_noexcept).  Emits the required-instance keys for one return of a stored value."""
     site = fn.loc(ret['id'])
-    gs = U.guards(fn, ret['id'])
-    miss = (lambda s: _edge_throws(fn, s)) if mode == 'throw' else (lambda s: _edge_returns_empty(fb, fn, s))
+    gs = U.guards(fn, ret['id']) + list(extra)
+
+    def miss(o):
+        if isinstance(o, tuple) and o[0] == 'arm':      # other arm of a conditional expression
+            return mode == 'empty' and U.value_source(fb, fn, o[1])[0] == 'empty'
+        return _edge_throws(fn, o) if mode == 'throw' else _edge_returns_empty(fb, fn, o)
     what = 'throw osmium::not_found' if mode == 'throw' else 'return empty_value()'
     sfx = 'throws' if mode == 'throw' else 'returns-empty'
     idp = _id_param(fn)
@@ -252,14 +280,14 @@ def _noexcept_chain(fb, R, fn, seen, depth=0):
     if not rets:
         R.bad(rule, '%s#returns-a-value' % fn.q, fn.site, '%s has no return statement' % fn.q)
     for ret in rets:
-        src = U.value_source(fb, fn, ret['sub'])
+      for (src, extra) in _ret_sources(fb, fn, ret):
         if src[0] == 'empty':
             R.ok(rule, '%s#returns-empty-on-miss' % fn.q, fn.loc(ret['id']))
         elif src[0] == 'method':
-            _stored_value_checks(fb, R, rule, fn, ret, src, 'empty')
+            _stored_value_checks(fb, R, rule, fn, ret, src, 'empty', extra)
             _noexcept_chain(fb, R, src[2], seen, depth + 1)
         elif src[0] in ('elem', 'iter'):
-            _stored_value_checks(fb, R, rule, fn, ret, src, 'empty')
+            _stored_value_checks(fb, R, rule, fn, ret, src, 'empty', extra)
         else:
             R.broken('%s: return value of unknown provenance at %s' % (fn.q, fn.loc(ret['id'])))
 
@@ -281,11 +309,11 @@ def get_rules(fb, R, classes):
             R.check(ok, r1, '%s#absent-throws-not_found' % fn.q, fn.site,
                     '%s must signal an absent id by throwing osmium::not_found (found %s)' % (fn.q, sorted({t.get('tt', '?') for t in throws}) or 'no throw'))
             for ret in _returns(fn):
-                src = U.value_source(fb, fn, ret['sub'])
+              for (src, extra) in _ret_sources(fb, fn, ret):
                 if src[0] == 'empty':
                     R.bad(r1, '%s#absent-throws-not_found' % fn.q, fn.loc(ret['id']), '%s returns empty_value() instead of throwing osmium::not_found' % fn.q)
                 elif src[0] in ('elem', 'iter', 'method'):
-                    _stored_value_checks(fb, R, r1, fn, ret, src, 'throw')
+                    _stored_value_checks(fb, R, r1, fn, ret, src, 'throw', extra)
                     if src[0] == 'method':
                         _noexcept_chain(fb, R, src[2], set())
                 else:
@@ -431,8 +459,8 @@ def flexmem_rules(fb, R):
                 if not (cn is not None and cn.get('k') == 'call' and cn.get('op') == '[]'):
                     continue
                 key0 = fn.q
-                oi = U.scn(fn, idx)
-                bi = U.scn(fn, cn['args'][0]) if cn.get('args') else None
+                oi = U.rn(fb, fn, idx)
+                bi = U.rn(fb, fn, cn['args'][0]) if cn.get('args') else None
                 same = (oi is not None and bi is not None and oi.get('k') == 'call' and bi.get('k') == 'call'
                         and oi.get('u') == OFF.usr and bi.get('u') == BLK.usr and oi.get('args') and bi.get('args')
                         and U.ctext(fb, fn, oi['args'][0]) == U.ctext(fb, fn, bi['args'][0])
@@ -529,45 +557,47 @@ def _allocated_evidence(fb, fn, inner_text, block_text, DN, depth=0):
 def _switch_rule(fb, R, rule, fn, asg, DN, SN, FN, dense_setters):
     key = fn.q
     pos = fn.positions()
-    # the loop: a range-for whose range is the sparse member
-    loops = [l for l in fn.loops if l.get('cls') == 'CXXForRangeStmt']
-    rng = None
-    for n in fn.all_nodes():
-        if n.get('k') == 'decl':
-            for v in n['vars']:
-                if v['name'].startswith('__range') and isinstance(v.get('init'), int) and fn.is_this_member(v['init'], SN):
-                    rng = (n, v)
-    cond_blk = next((b for b in fn.blocks.values() if b.get('termcls') == 'CXXForRangeStmt' and len(b['succs']) == 2), None)
+    # the loop: any whole-container loop form (range-for / iterator / index) over the sparse member
+    lps = [lp for lp in U.element_loops(fb, fn) if fn.is_this_member(lp['cont'], SN)]
     setters = {g.usr for g in dense_setters}
+    if not lps:
+        # the copy loop may have been extracted into a helper of the class: decide the loop there, then treat the call as the loop
+        for c_ in fn.all_nodes():
+            if c_.get('k') == 'call' and c_.get('rcls') == fn.cls and 'u' in c_ and not c_.get('args') and c_.get('recv') is not None \
+                    and (fn.sn(c_['recv']) or {}).get('k') == 'this':
+                g = U._callee_for(fb, fn, c_)
+                if g is None or not g.has_cfg or g.id == fn.id or not [lp for lp in U.element_loops(fb, g) if g.is_this_member(lp['cont'], SN)]:
+                    continue
+                sub = _HelperLoop(fb, g, SN, setters)
+                if sub.reason is None and U.must_pass(fn, fn.entry, [c_['id']], _already_dense_edge(fn, FN)) is None:
+                    _switch_rule_after_helper(fb, R, rule, fn, asg, SN, FN, c_)
+                    return
     calls = [n for n in fn.all_nodes() if n.get('k') == 'call' and n.get('u') in setters]
-    ok = len(loops) == 1 and rng is not None and cond_blk is not None and len(calls) >= 1
-    msg = 'no range-for over %s that feeds the dense setter' % SN
+    ok = len(lps) == 1 and len(calls) >= 1
+    msg = 'no loop over the whole of %s that feeds the dense setter' % SN
+    cond_blk = None
+    loops = []
     if ok:
-        body, after = cond_blk['succs']
-        # (a) arguments are (entry.<id field>, entry.<value field>) of the loop variable
+        lp = lps[0]
+        cond_blk = lp['cb']
+        loops = [lp['loop']]
+        # (a) arguments are (entry.<id field>, entry.<value field>) of the loop element
         good = []
         for c in calls:
             a = c.get('args', [])
             if len(a) != 2:
                 continue
             f0, f1 = U._field_path(fn, a[0]), U._field_path(fn, a[1])
-            if f0 is None or f1 is None or f0[0] != f1[0] or f0[0][0] != 'var' or len(f0[1]) != 1 or len(f1[1]) != 1 or f0[1] == f1[1]:
+            if f0 is None or f1 is None or f0[0] != lp['root'] or f1[0] != lp['root'] or len(f0[1]) != 1 or len(f1[1]) != 1 or f0[1] == f1[1]:
                 continue
-            init = U.local_init(fn, f0[0][1])
-            x = U.scn(fn, init) if init is not None else None
-            deref = x is not None and ((x.get('k') == 'call' and x.get('op') == '*') or (x.get('k') == 'unop' and x.get('op') == '*'))
-            if deref and fn.in_range(c['id'], loops[0]['b'], loops[0]['e']):
+            if fn.in_range(c['id'], lp['loop']['b'], lp['loop']['e']):
                 good.append(c)
         ok = bool(good)
-        msg = 'the dense setter is not called with (entry.id, entry.value) of the loop variable'
+        msg = 'the dense setter is not called with (entry.id, entry.value) of the loop element'
         if ok:
-            ids = {c['id'] for c in good}
-            # (b) no iteration skips the setter: from the body start back to the loop test
-            skip = _reaches_block(fn, body, cond_blk['id'], ids)
-            # (c) the loop is left only through its own test: no path from the body to the code after the loop avoiding the test block
-            leak = _reaches_exit_avoiding_block(fn, body, cond_blk['id'])
-            ok = not skip and not leak
-            msg = 'an iteration can skip the dense setter' if skip else 'the loop can be left before the last entry (break / return in the body)'
+            why = U.loop_complete(fn, lp, {c['id'] for c in good})
+            ok = why is None
+            msg = why
     R.check(ok, rule, key + '#every-sparse-entry-copied', fn.site, '%s: %s -- entries of %s would be lost when the index switches to dense' % (fn.q, msg, SN))
     if not ok:
         return
@@ -592,6 +622,57 @@ def _switch_rule(fb, R, rule, fn, asg, DN, SN, FN, dense_setters):
     w = _reaches_exit_avoiding_block(fn, fn.entry, cond_blk['id'], edge_ok)
     R.check(not w, rule, key + '#copy-unless-already-dense', fn.site,
             '%s can return without copying although %s is not set' % (fn.q, FN))
+
+
+class _HelperLoop(object):
+    """a helper whose body copies every element of the sparse member into the dense setter and does nothing else to it."""
+
+    def __init__(self, fb, g, SN, setters):
+        self.reason = 'no complete copy loop'
+        lps = [lp for lp in U.element_loops(fb, g) if g.is_this_member(lp['cont'], SN)]
+        if len(lps) != 1:
+            return
+        lp = lps[0]
+        good = []
+        for c in g.all_nodes():
+            if c.get('k') == 'call' and c.get('u') in setters and len(c.get('args', [])) == 2 and g.in_range(c['id'], lp['loop']['b'], lp['loop']['e']):
+                f0, f1 = U._field_path(g, c['args'][0]), U._field_path(g, c['args'][1])
+                if f0 is not None and f1 is not None and f0[0] == lp['root'] and f1[0] == lp['root'] and len(f0[1]) == 1 and len(f1[1]) == 1 and f0[1] != f1[1]:
+                    good.append(c['id'])
+        if not good:
+            return
+        why = U.loop_complete(g, lp, set(good))
+        # every normal path through the helper runs the loop; the helper does not modify the sparse member
+        mods = [n for n in g.all_nodes() if n.get('k') == 'call' and n.get('recv') is not None and g.is_this_member(n['recv'], SN)
+                and n.get('q', '').rsplit('::', 1)[-1] in ('clear', 'resize', 'erase', 'pop_back', 'assign', 'swap', 'operator=', 'push_back', 'emplace_back')]
+        if why is None and not mods and not _reaches_exit_avoiding_block(g, g.entry, lp['cb']['id']):
+            self.reason = None
+        else:
+            self.reason = why or 'the helper modifies the sparse member or can skip the loop'
+
+
+def _already_dense_edge(fn, FN):
+    def edge_ok(b, i, s):
+        blk = fn.blocks[b]
+        if 'cond' in blk and len(blk['succs']) == 2:
+            for (c, sense) in U.edge_facts(fn, blk, i):
+                if fn.is_this_member(c, FN) and sense:
+                    return False
+        return True
+    return edge_ok
+
+
+def _switch_rule_after_helper(fb, R, rule, fn, asg, SN, FN, call):
+    key = fn.q
+    R.ok(rule, key + '#every-sparse-entry-copied', fn.site, 'copy loop in helper %s' % call.get('q'))
+    clears = [n for n in fn.all_nodes() if n.get('k') == 'call' and n.get('recv') is not None and fn.is_this_member(n['recv'], SN)
+              and n.get('q', '').rsplit('::', 1)[-1] in ('clear', 'resize', 'erase', 'pop_back', 'assign', 'swap', 'operator=')]
+    R.check(all(fn.elem_dominates(call['id'], c['id']) for c in clears), rule, key + '#sparse-cleared-after-copy', fn.site,
+            '%s modifies %s before it is copied into the dense blocks' % (fn.q, SN))
+    w = U.must_pass_after(fn, call['id'], [a['id'] for a in asg])
+    R.check(w is None and all(fn.elem_dominates(call['id'], a['id']) for a in asg), rule, key + '#mode-flag-set-after-copy', fn.site,
+            '%s must set %s after the copy on every path' % (fn.q, FN))
+    R.ok(rule, key + '#copy-unless-already-dense', fn.site)
 
 
 def _reaches_block(fn, start, target_block, barrier_ids):
